@@ -2,7 +2,7 @@
    and instances showing that the hypotheses of the C05 theorems are satisfiable. *)
 From Coq Require Import ZArith List Bool Lia.
 From VV Require Import lib.PyInt model.Alloc proofs.AllocProofs proofs.AllocGreedyProofs proofs.AllocLinearProofs
-  proofs.AllocHillProofs proofs.AllocHillSearchProofs proofs.AllocDispatchProofs.
+  proofs.AllocHillProofs proofs.AllocHillSearchProofs proofs.AllocAlignProofs proofs.AllocDispatchProofs.
 Import ListNotations.
 Open Scope Z_scope.
 
@@ -194,4 +194,12 @@ Example allocate_example :
 Proof.
   split; [|vm_compute; reflexivity].
   repeat constructor; cbn; try lia; [exists 8 | exists 2 | exists 4 | exists 1]; lia.
+Qed.
+
+(* a tensor requested with 64, then 16 (seen again inside the NPU subgraph), another one with 16 then 32 then 16 *)
+Example range_alignments_example :
+  range_alignments [(7, 64); (9, 16); (7, 16); (9, 32); (9, 16)] = [(7, 64); (9, 32)] /\
+  div_chain (requests_of 7 [(7, 64); (9, 16); (7, 16); (9, 32); (9, 16)]).
+Proof.
+  split; [vm_compute; reflexivity|]. apply pow2_chain. cbn. intros x [<-|[<-|[]]]; [exists 6 | exists 4]; split; lia.
 Qed.
